@@ -236,6 +236,11 @@ func lhsIdents(fn *ssa.Function) map[token.Pos]bool {
 
 func (v *Verifier) newFrame(fn *ssa.Function, caller *Frame) *Frame {
 	if len(fn.Blocks) == 0 {
+		if v.specOnlyFrames {
+			// evaluation of a contract on concrete inputs and outputs (assembly routine against its assumed contract):
+			// the frame only carries names, the body is never run
+			return &Frame{v: v, fn: fn, caller: caller, cnt: map[string]int{}, visits: map[*ssa.BasicBlock]int{}, params: map[string]Value{}, fname: v.funcKey(fn)}
+		}
 		unsup("function %s has no Go body (assembly/external) and no contract", fn.String())
 	}
 	fr := &Frame{v: v, fn: fn, caller: caller, cnt: map[string]int{}, visits: map[*ssa.BasicBlock]int{}, params: map[string]Value{}}
